@@ -4,6 +4,7 @@ import json, os, shutil, glob, subprocess, re, sys
 ROOT = sys.argv[1] if len(sys.argv) > 1 else "/tmp/mutout"      # where the sub-agents delivered
 SUFFIX = sys.argv[2] if len(sys.argv) > 2 else ""               # round marker appended to the id ("2" -> C01-A2)
 NOTES = json.load(open(sys.argv[3])) if len(sys.argv) > 3 else {}  # id -> {"first_run":..., "strengthening":...}
+DROPPED_BY_ROUND = {"3": {"C10/A": "neutralised by fix 3eb81dd (an uncaught error closes the captured variables of the frames it discards): the only way the module-level fiber could be dropped with an open captured variable was an uncaught error; the demonstration prints 42 / 43 with the change applied"}}
 DROPPED = {
  "C01/B": "neutralised by fix d72963c (bound-method blacken): with blacken no longer re-greying, a single trace pass suffices; was caught by C01 (ScheduleDependentAbort, Asan heap-use-after-free) before that fix",
  "C02/B": "neutralised by fix 012ace0 (open upvalues keep their fiber alive): the unclosed upvalue of a finished fiber now stays valid",
@@ -25,13 +26,16 @@ for d in sorted(glob.glob(ROOT + "/C*/[AB]")):
     if mid in DROPPED and not SUFFIX:
         rows.append((sid, "dropped", DROPPED[mid]))
         continue
+    if mid in DROPPED_BY_ROUND.get(SUFFIX, {}):
+        rows.append((sid, "dropped", DROPPED_BY_ROUND[SUFFIX][mid]))
+        continue
     ok = conf.get("applies") and conf.get("builds") and conf.get("tests_ok") and (conf.get("demo_ok") or (mid in MANUAL and not SUFFIX))
     if not ok:
         rows.append((sid, "unconfirmed", str({k: conf.get(k) for k in ("applies", "builds", "tests_ok", "demo_ok")})))
         continue
     out = "/verif/seeded/" + sid
     os.makedirs(out, exist_ok=True)
-    src_patch = d + "/patch.rebased.diff" if os.path.exists(d + "/patch.rebased.diff") and os.path.getsize(d + "/patch.rebased.diff") > 0 else d + "/patch.diff"
+    src_patch = d + "/patch.manual.diff" if os.path.exists(d + "/patch.manual.diff") else d + "/patch.rebased.diff" if os.path.exists(d + "/patch.rebased.diff") and os.path.getsize(d + "/patch.rebased.diff") > 0 else d + "/patch.diff"
     shutil.copy(src_patch, out + "/patch.diff")
     for fn in os.listdir(d):
         if fn.endswith(".yl") or fn.endswith(".txt") or fn.endswith(".py") or fn.startswith("demo") or fn.startswith("expected") or fn in ("notes.md", "run.sh", "gc_report.awk") or fn.startswith("control") or fn == "find_collision.rs":
